@@ -9,8 +9,14 @@
 import Mathlib.Tactic.NormNum
 import Mathlib.Algebra.Order.Field.Rat
 import OpmVerif.Proofs.Pvt
+import OpmVerif.Proofs.PvtFill
+import OpmVerif.Proofs.PvtFillDesc
+import OpmVerif.Proofs.PvtSat
+import OpmVerif.Proofs.Tab2DGuide
+import OpmVerif.Proofs.Tab1DDeriv
 import OpmVerif.Proofs.PvtRegion
 import OpmVerif.Gen.PvtRegion
+import OpmVerif.Gen.Tab2D
 
 namespace OpmVerif.Props.C14
 open OpmVerif.Tab1D OpmVerif.Tab2D OpmVerif.Pvt OpmVerif.PvtRegion
@@ -139,6 +145,50 @@ theorem guide_set_by_first_sample (t : Table K) (i : Nat) (y v : K)
       t'.colY = setAt t.colY i [y] ∧ t'.colV = setAt t.colV i (col t.colV i ++ [v]) ∧ t'.guide = t.guide ∧ t'.xPos = t.xPos :=
   appendSamplePoint_first_sets_guide t i y v he hg
 
+/-- **undersat_meets_sat** (2-D table level, full strength in `p`): under the LeftExtreme
+guide with strictly increasing keys `xPos` (Rs) and guide points `yPos` (the saturated
+pressures), for *every* `p` — nodes, between nodes, extrapolated ends — the 2-D function on the
+saturated curve `(Rs_sat(p), p)` equals the saturated 1-D table of the columns' guide-point
+values `sv`. -/
+theorem undersat_meets_sat (t : Table K) (hg : t.guide = .leftExtreme)
+    (hx : StrictInc t.xPos) (hy : StrictInc t.yPos) (hn : 2 ≤ t.xPos.length)
+    (hl : t.yPos.length = t.xPos.length) (sv : List K)
+    (hsv : ∀ k, k < t.xPos.length → colEval t k (nth t.yPos k) = nth sv k) (p : K) :
+    Tab2D.eval t (evalX t.yPos t.xPos p) p = evalX t.yPos sv p :=
+  eval_meets_saturated t hg hx hy hn hl sv hsv p
+
+/-- The same in the words of the live-oil model: if the saturated tables of `L` are laid out
+as `initEnd` lays them out (abscissae = the guide points of the `1/B` table, Rs table = its
+keys, saturated `1/B` = the columns' values at their guide points) then
+`1/B(p, Rs_sat(p)) = 1/B_sat(p)` for every `p`.  (That `liveOil` produces this layout is
+compared bit for bit on the dumped tables; `filltable_layout` proves the column part.) -/
+theorem undersat_meets_sat_liveoil (L : Live K) (hg : L.invB.guide = .leftExtreme)
+    (hx : StrictInc L.invB.xPos) (hy : StrictInc L.invB.yPos) (hn : 2 ≤ L.invB.xPos.length)
+    (hl : L.invB.yPos.length = L.invB.xPos.length)
+    (h1 : L.rX = L.invB.yPos) (h2 : L.rY = L.invB.xPos) (h3 : L.satX = L.invB.yPos)
+    (hsv : ∀ k, k < L.invB.xPos.length → colEval L.invB k (nth L.invB.yPos k) = nth L.invSatB k) (p : K) :
+    L.invBAt (L.rsAt p) p = L.satInvBAt p := by
+  unfold Live.invBAt Live.rsAt Live.satInvBAt
+  rw [h1, h2, h3]
+  exact eval_meets_saturated L.invB hg hx hy hn hl L.invSatB hsv p
+
+/-- **undersat_meets_sat for the live-oil model itself** (`initFromState` + `initEnd` with the
+repaired `appendSamplePoint`): from `liveOil true … recs = some L` alone — records after the
+extension with strictly increasing Rs keys and saturated pressures, every branch ≥ 2 rows
+strictly increasing in pressure — for *every* pressure `p` (saturated nodes, between them,
+beyond the table) `1/B(p, Rs_sat(p)) = 1/B_sat(p)`.  The index bookkeeping (guide points =
+first sample of every record through `appendAll`/`fillTable`, the `List.range`-indexed
+saturated lists, keys and first rows kept by the extension) is proved, not assumed. -/
+theorem undersat_meets_sat_liveoil_model (g : Bool) (c : Consts K) (recs ext : List (Rec K)) (L : Live K)
+    (h : liveOil true g c recs = some L) (he : extendAll c recs = some ext)
+    (hk : StrictInc (ext.map fun r => r.key)) (hsat : StrictInc (ext.map firstY)) (hn : 2 ≤ ext.length)
+    (hrows : ∀ r ∈ ext, StrictInc (r.rows.map fun row => row.1) ∧ 2 ≤ r.rows.length) (p : K) :
+    L.invBAt (L.rsAt p) p = L.satInvBAt p :=
+  liveOil_undersat_meets_sat g c recs ext L h he hk hsat hn hrows p
+
+/-- The code's shape is the repaired one (regenerated from the header on every run). -/
+theorem guide_rule_is_the_repaired_one : Gen.Tab2D.firstAppendSetsLeftGuide = true := by decide
+
 /-! ## PVT classes -/
 
 /-- PVDO: at every table node `B = 1/(1/B)` and `mu = (1/B)/((1/B)/mu)` are the tabulated
@@ -213,6 +263,146 @@ duplicates and the sort by Rs leave the node list as it is. -/
 theorem psat_guess_table_is_node_list (l : List (K × K)) (h : AscFst l) :
     dedupAdj l = l ∧ sortPairs l = l :=
   ⟨dedupAdj_of_asc l h, sortPairs_of_asc l h⟩
+
+/-! ## The derivative as a limit (over ℝ) -/
+
+/-- **evalDerivative is the derivative.**  Over ℝ, for strictly increasing sample positions of
+any length ≥ 2 and every `x` strictly inside a table segment `i`, the interpolant `z ↦ eval(z)`
+is differentiable at `x` (`HasDerivAt`), its derivative is the number `evalDerivative(x)`
+returns, and that is the chord slope of segment `i`. -/
+theorem eval_hasDerivAt_slope {xs : List ℝ} (ys : List ℝ) (hs : StrictInc xs) (hn : 2 ≤ xs.length)
+    (i : Nat) (hi : i + 1 < xs.length) (x : ℝ) (h1 : nth xs i < x) (h2 : x < nth xs (i + 1)) :
+    HasDerivAt (fun z => evalX xs ys z) (derivX xs ys x) x ∧
+    derivX xs ys x = (nth ys (i + 1) - nth ys i) / (nth xs (i + 1) - nth xs i) :=
+  Tab1D.evalX_hasDerivAt ys hs hn i hi x h1 h2
+
+/-- The same on the two extrapolated rays (first and last node included): left of the second
+sample the derivative is the slope of the first segment, right of the last-but-one sample that
+of the last segment. -/
+theorem eval_hasDerivAt_extrapolated {xs : List ℝ} (ys : List ℝ) (hs : StrictInc xs) (hn : 2 ≤ xs.length) (x : ℝ) :
+    (x < nth xs 1 → HasDerivAt (fun z => evalX xs ys z) (derivX xs ys x) x ∧ derivX xs ys x = derivSeg xs ys 0) ∧
+    (nth xs (xs.length - 2) < x → HasDerivAt (fun z => evalX xs ys z) (derivX xs ys x) x ∧
+      derivX xs ys x = derivSeg xs ys (xs.length - 2)) :=
+  ⟨Tab1D.evalX_hasDerivAt_left xs ys x, Tab1D.evalX_hasDerivAt_right ys hs hn x⟩
+
+/-- **Continuity at the nodes** (topological, over ℝ): at every interior node the interpolant
+is continuous — and it is continuous on the whole line. -/
+theorem eval_continuous_real {xs : List ℝ} (ys : List ℝ) (hs : StrictInc xs) (hn : 2 ≤ xs.length) :
+    (∀ k, 0 < k → k + 1 < xs.length → ContinuousAt (fun z => evalX xs ys z) (nth xs k)) ∧
+    Continuous (fun z => evalX xs ys z) :=
+  ⟨fun k h0 hk => Tab1D.evalX_continuousAt_node ys hs hn k h0 hk, Tab1D.evalX_continuous ys hs hn⟩
+
+/-- On the closed segment `j` (first/last segment: with its ray) the function is segment `j`'s
+line, whichever adjacent segment the index search returns at a node. -/
+theorem eval_on_closed_segment {xs : List K} (ys : List K) (hs : StrictInc xs) (hn : 2 ≤ xs.length)
+    (x : K) (j : Nat) (hj : j + 1 < xs.length)
+    (h1 : 0 < j → nth xs j ≤ x) (h2 : j + 2 < xs.length → x ≤ nth xs (j + 1)) :
+    evalX xs ys x = evalSeg xs ys j x :=
+  Tab1D.evalX_eq_evalSeg_of_mem ys hs hn x j hj h1 h2
+
+/-! ## Master-table extension of PVTO / PVTG branches without under-saturated rows
+
+`extendRows c last m` are the rows `extendPvtoTable_` / `extendPvtgTable_` append to a record
+that has the saturated row `last` only, from the master rows `m`; `rowAt b j` is row `j`
+`(y, B, mu)` of a branch. -/
+
+/-- **Closed form**: row `j` of the extended branch is the master's row `j` shifted in `y` to
+start at the given row and scaled in `B` and in `mu`:
+`(last.y + (m[j].y - m[0].y), last.B * m[j].B / m[0].B, last.mu * m[j].mu / m[0].mu)` — for
+master branches of any length with positive `B`, `mu`. -/
+theorem extended_branch_closed_form (c : Consts K) (hc : c.two = 2) (m : List (K × K × K))
+    (last : K × K × K) (hp : AllPos m) (j : Nat) (hj : j < m.length) :
+    rowAt (last :: extendRows c last m) j =
+      (last.1 + ((rowAt m j).1 - (rowAt m 0).1),
+       last.2.1 * (rowAt m j).2.1 / (rowAt m 0).2.1,
+       last.2.2 * (rowAt m j).2.2 / (rowAt m 0).2.2) :=
+  Pvt.extended_branch_closed_form c hc m last hp j hj
+
+/-- **The extended values reproduce the master branch's compressibility and viscosibility**:
+between rows `j`, `j+1` the relative change `(b' - b)/((b' + b)/2)` of `B` and of `mu` and the
+step in `y` are those of the master branch between its rows `j`, `j+1`. -/
+theorem extended_branch_same_compressibility (c : Consts K) (hc : c.two = 2)
+    (m : List (K × K × K)) (last : K × K × K) (hp : AllPos m) (hl : 0 < last.2.1 ∧ 0 < last.2.2)
+    (j : Nat) (hj : j + 1 < m.length) :
+    let b := last :: extendRows c last m
+    relChange (rowAt b j).2.1 (rowAt b (j + 1)).2.1 = relChange (rowAt m j).2.1 (rowAt m (j + 1)).2.1 ∧
+    relChange (rowAt b j).2.2 (rowAt b (j + 1)).2.2 = relChange (rowAt m j).2.2 (rowAt m (j + 1)).2.2 ∧
+    (rowAt b (j + 1)).1 - (rowAt b j).1 = (rowAt m (j + 1)).1 - (rowAt m j).1 :=
+  Pvt.extended_branch_same_compressibility c hc m last hp hl j hj
+
+/-- The extended branch has as many rows as the master and its `B`, `mu` stay positive. -/
+theorem extended_branch_positive (c : Consts K) (hc : c.two = 2)
+    (m : List (K × K × K)) (last : K × K × K) (hp : AllPos m) (hl : 0 < last.2.1 ∧ 0 < last.2.2)
+    (j : Nat) (hj : j < m.length) :
+    (last :: extendRows c last m).length = 1 + (m.length - 1) ∧
+    0 < (rowAt (last :: extendRows c last m) j).2.1 ∧ 0 < (rowAt (last :: extendRows c last m) j).2.2 :=
+  ⟨by rw [List.length_cons, extendRows_length]; omega, Pvt.extended_branch_positive c hc m last hp hl j hj⟩
+
+/-- The master branch is the *first* later record that has under-saturated rows. -/
+theorem extension_master_is_first_complete (rest : List (Rec K)) (m : Rec K) (h : findMaster rest = some m) :
+    ∃ k, k < rest.length ∧ rest[k]? = some m ∧ 1 < m.rows.length ∧
+      ∀ k', k' < k → ∀ r, rest[k']? = some r → r.rows.length ≤ 1 :=
+  findMaster_spec rest m h
+
+/-- **Node values are kept**: the extension returns one record per deck record with the same
+key; records with under-saturated rows are unchanged; a record with the saturated row only
+becomes that row followed by `extendRows` from the first later complete record. -/
+theorem extension_keeps_deck_rows (c : Consts K) (recs ext : List (Rec K)) (h : extendAll c recs = some ext) :
+    ext.length = recs.length ∧
+    ∀ i r, recs[i]? = some r → ∃ e, ext[i]? = some e ∧ e.key = r.key ∧
+      ((1 < r.rows.length ∧ e = r) ∨
+       (∃ row m, r.rows = [row] ∧ findMaster (recs.drop (i + 1)) = some m ∧
+          e.rows = row :: extendRows c row m.rows)) :=
+  extendAll_spec c recs ext h
+
+/-- A table whose last record has no under-saturated rows is refused. -/
+theorem extension_last_must_be_complete (c : Consts K) (recs : List (Rec K)) (r : Rec K)
+    (h : r.rows.length ≤ 1) : extendAll c (recs ++ [r]) = none :=
+  extendAll_last_must_be_complete c recs r h
+
+/-- **`fillTable` bookkeeping** (`appendXPos` + `appendSamplePoint` per row, ascending `y`): the
+records become the columns, in order, rows in order — any number of records and rows. -/
+theorem filltable_layout (fix : Bool) (c : Consts K) (val : K × K × K → K) (recs : List (Rec K))
+    (t : Table K) (hl : t.colV.length = t.colY.length)
+    (hs : ∀ r ∈ recs, StrictInc (r.rows.map (fun row => row.1))) :
+    ∃ t', fillTable fix c val t t.colY.length recs = some t' ∧ t'.guide = t.guide ∧
+      t'.xPos = t.xPos ++ recs.map (fun r => r.key) ∧
+      t'.colY = t.colY ++ recs.map (fun r => r.rows.map (fun row => row.1)) ∧
+      t'.colV = t.colV ++ recs.map (fun r => r.rows.map val) :=
+  fillTable_spec fix c val recs t hl hs
+
+/-- **Node honouring of the live-oil model, extended branches included**: at every row of
+every record after the extension (deck rows and added rows) `1/B(p, Rs)` and the `mu` table
+return the row's `1/B` and `mu`. -/
+theorem liveoil_node_honour_extended (fix g : Bool) (c : Consts K) (recs ext : List (Rec K)) (L : Live K)
+    (h : liveOil fix g c recs = some L) (he : extendAll c recs = some ext)
+    (hk : StrictInc (ext.map fun r => r.key)) (hn : 2 ≤ ext.length)
+    (hrows : ∀ r ∈ ext, StrictInc (r.rows.map fun row => row.1) ∧ 2 ≤ r.rows.length)
+    (i : Nat) (r : Rec K) (hi : ext[i]? = some r) (j : Nat) (row : K × K × K) (hj : r.rows[j]? = some row) :
+    L.invBAt r.key row.1 = 1 / row.2.1 ∧ Tab2D.eval L.muT r.key row.1 = row.2.2 :=
+  liveOil_node_honour fix g c recs ext L h he hk hn hrows i r hi j row hj
+
+/-- `fillTable` for rows handed over in *descending* `y` (PVTG: Rv from the saturated value
+down; every sample after the first takes the prepend branch): each column is the record's rows
+reversed. -/
+theorem filltable_layout_descending (fix : Bool) (c : Consts K) (val : K × K × K → K) (recs : List (Rec K))
+    (t : Table K) (hl : t.colV.length = t.colY.length)
+    (hs : ∀ r ∈ recs, StrictInc (r.rows.map (fun row => row.1)).reverse) :
+    ∃ t', fillTable fix c val t t.colY.length recs = some t' ∧ t'.guide = t.guide ∧
+      t'.xPos = t.xPos ++ recs.map (fun r => r.key) ∧
+      t'.colY = t.colY ++ recs.map (fun r => (r.rows.map (fun row => row.1)).reverse) ∧
+      t'.colV = t.colV ++ recs.map (fun r => (r.rows.map val).reverse) :=
+  fillTable_spec_desc fix c val recs t hl hs
+
+/-- **Node honouring of the wet-gas model, extended branches included** (keys = gas pressure
+ascending, rows = Rv descending). -/
+theorem wetgas_node_honour_extended (fix g : Bool) (c : Consts K) (recs ext : List (Rec K)) (L : Live K)
+    (h : wetGas fix g c recs = some L) (he : extendAll c recs = some ext)
+    (hk : StrictInc (ext.map fun r => r.key)) (hn : 2 ≤ ext.length)
+    (hrows : ∀ r ∈ ext, StrictInc (r.rows.map fun row => row.1).reverse ∧ 2 ≤ r.rows.length)
+    (i : Nat) (r : Rec K) (hi : ext[i]? = some r) (j : Nat) (row : K × K × K) (hj : r.rows[j]? = some row) :
+    L.invBAt r.key row.1 = 1 / row.2.1 ∧ Tab2D.eval L.muT r.key row.1 = row.2.2 :=
+  wetGas_node_honour fix g c recs ext L h he hk hn hrows i r hi j row hj
 
 /-! ## Several PVT regions: which table is in effect (`PvtxTable`, simple table containers)
 
@@ -322,5 +512,44 @@ example : simpleResolve [[1, 2], ([] : List Nat), [3], []] = some [[1, 2], [1, 2
 /-- a 7-row branch: segment 2 of the column is the line through rows 2 and 3 -/
 example : evalX ([1, 2, 3, 4, 5, 6, 7] : List ℚ) [10, 20, 40, 80, 160, 320, 640] (7 / 2) = 60 := by
   simp [evalX, segIdx, evalSeg, nth, bisect]; norm_num
+
+/-- the derivative inside segment 1 of a three-node table over ℝ -/
+example : HasDerivAt (fun z => evalX ([1, 2, 4] : List ℝ) [10, 20, 15] z) ((15 - 20) / (4 - 2)) 3 := by
+  have h := eval_hasDerivAt_slope (xs := ([1, 2, 4] : List ℝ)) [10, 20, 15]
+    (strictInc_three (by norm_num) (by norm_num)) (by simp) 1 (by simp) 3
+    (by simp [nth]; norm_num) (by simp [nth]; norm_num)
+  have h2 := h.2
+  simp [nth] at h2
+  have h1 := h.1
+  rw [h2] at h1
+  exact h1
+def qc : Consts ℚ := { low := -1, tiny := 1 / 1000, eps := 1 / 1000, two := 2, ofNat := fun n => n }
+/-- one-row record (50, B=1, mu=3) extended from the master rows (100, 12/10, 1), (200, 11/10, 2) -/
+example : extendRows qc ((50, 1, 3) : ℚ × ℚ × ℚ) [(100, 12 / 10, 1), (200, 11 / 10, 2)] = [(150, 11 / 12, 6)] := by
+  simp [extendRows, qc]; norm_num
+example : AllPos ([(100, 12 / 10, 1), (200, 11 / 10, 2)] : List (ℚ × ℚ × ℚ)) := by
+  intro row h; simp at h; rcases h with rfl | rfl <;> norm_num
+example : findMaster ([⟨1, [(1, 1, 1)]⟩, ⟨2, [(1, 1, 1), (2, 1, 1)]⟩, ⟨3, [(1, 1, 1), (2, 1, 1), (3, 1, 1)]⟩] : List (Rec ℚ))
+    = some ⟨2, [(1, 1, 1), (2, 1, 1)]⟩ := by simp [findMaster]
+example : extendAll qc ([⟨1, [(1, 1, 1)]⟩] : List (Rec ℚ)) = none := by simp [extendAll, findMaster]
+example : relChange (2 : ℚ) 6 = 1 := by norm_num [relChange]
+/-- a two-column LeftExtreme table whose guide points are the columns' first samples: the
+hypotheses of `undersat_meets_sat` hold, and at p = 150 (between the nodes) both sides are 2 -/
+def qt : Table ℚ := { xPos := [0, 10], yPos := [100, 200], colY := [[100, 300], [200, 400]],
+                      colV := [[1, 2], [3, 4]], guide := .leftExtreme }
+example : ∀ k, k < qt.xPos.length → colEval qt k (nth qt.yPos k) = nth ([1, 3] : List ℚ) k := by
+  intro k hk
+  have : k = 0 ∨ k = 1 := by simp [qt] at hk; omega
+  rcases this with rfl | rfl <;>
+    simp [qt, colEval, colBlend, yToBeta, segIdx, nth, col]
+example : Tab2D.eval qt (evalX qt.yPos qt.xPos 150) 150 = 2 := by
+  simp [qt, Tab2D.eval, evalX, evalSeg, shift, xToAlpha, colEval, colBlend, yToBeta, segIdx, nth, col]; norm_num
+/-- a PVTG-like branch: Rv descending 3, 2, 0 — reversed it is strictly increasing -/
+example : StrictInc ((([(3, 1, 1), (2, 1, 1), (0, 1, 1)] : List (ℚ × ℚ × ℚ)).map fun row => row.1).reverse) := by
+  simpa using strictInc_three (a := (0 : ℚ)) (b := 2) (c := 3) (by norm_num) (by norm_num)
+/-- two PVTO-like records (Rs 0 and 10, saturated pressures 100 and 200): the hypotheses of
+`undersat_meets_sat_liveoil_model` on keys, saturated pressures and rows are satisfiable -/
+example : StrictInc (([⟨0, [(100, 1, 1), (300, 1, 1)]⟩, ⟨10, [(200, 1, 1), (400, 1, 1)]⟩] : List (Rec ℚ)).map firstY) := by
+  simpa [firstY] using strictInc_two (a := (100 : ℚ)) (b := 200) (by norm_num)
 
 end OpmVerif.Props.C14
